@@ -58,42 +58,7 @@ theorem spec_valid_unwraps (c : Ciphers) (hc : c.Lawful) (kbpk : Bytes) (h : Hea
     unwrapFn c kbpk (Spec.TR31.build c kbpk h forms padMode key pad lower) = .ok (h, key) :=
   spec_valid_unwraps' c hc kbpk h forms padMode key pad lower hw hnp hf v hv hkp hps hcnt hlen hk
 
-/-- non-vacuity of `spec_valid_unwraps`: version D, a block in extended form with a 2-byte length field, an oversized pad
-block, zero... (14) key-padding bytes, lower-case hex — every hypothesis holds (kernel-evaluated with the reference AES) -/
-example : unwrapFn refCiphers (List.replicate 16 0x2a)
-    (Spec.TR31.build refCiphers (List.replicate 16 0x2a)
-      { versionId := [68], keyUsage := [80, 48], algorithm := [65], modeOfUse := [69], versionNum := [48, 48],
-        exportability := [78], reserved := [48, 48], blocks := [([75, 83], [49, 50, 51])] }
-      [2] 2 (List.replicate 16 7) (List.replicate 14 9) true) =
-    .ok ({ versionId := [68], keyUsage := [80, 48], algorithm := [65], modeOfUse := [69], versionNum := [48, 48],
-           exportability := [78], reserved := [48, 48], blocks := [([75, 83], [49, 50, 51])] }, List.replicate 16 7) := by
-  refine spec_valid_unwraps refCiphers refCiphers_lawful _ _ _ _ _ _ _ ?_ ?_ ?_ 68 rfl ?_ ?_ ?_ ?_ ?_
-  · exact ⟨by decide, by decide, by decide, by decide, by decide, by decide, by decide,
-      fun p hp => by simp at hp; subst hp; exact ⟨rfl, by decide, by decide⟩, by decide⟩
-  · intro p hp; simp at hp; subst hp; decide
-  · exact ⟨Or.inr ⟨by decide, by decide, by decide⟩, trivial⟩
-  · decide
-  · decide
-  · decide
-  · decide +kernel
-  · decide
-
-/-- non-vacuity: a concrete successful wrap (reference ciphers, version D, 24-byte KBPK, one optional block) — the hypotheses
-of `wrap_is_spec_valid` are met by it (`decide`), so the specification opens it -/
-example :
-    (wrapFn refCiphers [0x00, 0x01, 0x02, 0x03, 0x04, 0x05, 0x06, 0x07, 0x08, 0x09, 0x0a, 0x0b, 0x0c, 0x0d, 0x0e, 0x0f, 0x10, 0x11, 0x12, 0x13, 0x14, 0x15, 0x16, 0x17]
-      (.obj { versionId := [68], keyUsage := [80, 48], algorithm := [65], modeOfUse := [69],
-              versionNum := [48, 48], exportability := [78], reserved := [48, 48],
-              blocks := [([75, 83], [48, 48, 54, 48, 52, 66, 49, 50, 48, 70, 57, 50, 57, 50, 56, 48, 48, 48, 48, 48])] })
-      [0x3f, 0x41, 0x9e, 0x1c, 0xb7, 0x07, 0x94, 0x42, 0xaa, 0x37, 0x47, 0x4c, 0x2e, 0xfb, 0xf8, 0xb8] none [0x1c, 0x29, 0x65, 0x47, 0x3c, 0xe2, 0x06, 0xbb, 0x85, 0x5b, 0x01, 0x53, 0x37, 0x82, 0x00, 0x11, 0x22, 0x33, 0x44, 0x55, 0x66, 0x77, 0x88, 0x99, 0xaa, 0xbb, 0xcc, 0xdd, 0xee, 0xff]).toOption.isSome = true := by
-  decide +kernel
-
-/-! ## the specification's CMAC meets the SP 800-38B AES-128 examples (kernel-evaluated, reference AES) -/
-example : Spec.cmac (AES.aesE (hexb "2b7e151628aed2a6abf7158809cf4f3c")) 16 [] = hexb "bb1d6929e95937287fa37d129b756746" := by decide +kernel
-example : Spec.cmac (AES.aesE (hexb "2b7e151628aed2a6abf7158809cf4f3c")) 16 (hexb "6bc1bee22e409f96e93d7e117393172a") =
-    hexb "070a16b46b4d4144f79bdd9dd04a287c" := by decide +kernel
-example : Spec.cmac (AES.aesE (hexb "2b7e151628aed2a6abf7158809cf4f3c")) 16
-    (hexb "6bc1bee22e409f96e93d7e117393172aae2d8a571e03ac9c9eb76fac45af8e5130c81c46a35ce411") =
-    hexb "dfa66747de9ae63030ca32611497c827" := by decide +kernel
+/-! Non-vacuity examples for both theorems and the SP 800-38B CMAC examples are kernel-evaluated in `Props/C03Examples.lean`
+(built by `PsecModel.Tests` in the thorough tier: they cost ≈ 45 s of kernel evaluation). -/
 
 end Psec.Props.C03
